@@ -26,6 +26,7 @@ type c04Case struct {
 	WBuf     int    `json:"wbuf"`
 	RBuf     int    `json:"rbuf"`
 	Direct   bool   `json:"direct,omitempty"`
+	BufRead  bool   `json:"buf_read,omitempty"` // written with direct I/O, read back with the buffered reader only
 	SeekLen  int    `json:"seek_len"`
 	Prog     []wOp  `json:"prog"`
 	ReadProg []bool `json:"read_prog"`
@@ -139,7 +140,7 @@ func (c *c04Case) Exec() {
 		return
 	}
 	c.File, _ = os.ReadFile(path)
-	c.Seq = readAllSeq(path, c.RBuf, c.Direct, len(c.Prog)+3)
+	c.Seq = readAllSeq(path, c.RBuf, c.Direct && !c.BufRead, len(c.Prog)+3)
 	c.SeqFile = nil
 	if len(c.Prog)%3 == 0 && !c.Direct {
 		c.SeqFile = readAllSeqWithFile(path, len(c.Prog)+3)
@@ -505,6 +506,17 @@ func genC04(r *rand.Rand, tier string) []Case {
 		cases = append(cases, c)
 	}
 	if dio {
+		// direct I/O files whose writer buffer (= the zero padding at their end) is larger than the reader's buffer
+		for k := 0; k < 3; k++ {
+			c := &c04Case{Comp: []int{0, 2, 0}[k], Direct: true, BufRead: true, WBuf: []int{65536, 16384, 1 << 20}[k], RBuf: 4096, SeekLen: 4096}
+			for j := 0; j < 2+r.Intn(4); j++ {
+				c.Prog = append(c.Prog, wOp{Op: "write", Rec: advPayload(r, 200)})
+			}
+			for j := 0; j < len(c.Prog)+2; j++ {
+				c.ReadProg = append(c.ReadProg, j%2 == k%2)
+			}
+			cases = append(cases, c)
+		}
 		// direct I/O with a seek back to a block boundary and a shorter rewrite: what lies beyond must be cut off.
 		// The first record is sized so that (with the usual 5-byte checksum varint) it ends at offset 4096.
 		for k := 0; k < 3; k++ {
